@@ -49,6 +49,13 @@ type FuncSpec struct {
 	Params    []string // for interface/func-type contracts: parameter names
 	Sets      []GhostSet // ghost assignments performed in the caller when the call returns
 	Ghosts    []GhostSet // ghost variables of the function with their entry values
+	GhostExit []GhostAssign // ghost field assignments performed at function exit
+}
+
+// GhostAssign is "x.f = expr" for a ghost field f.
+type GhostAssign struct {
+	Target *SExpr
+	E      *SExpr
 }
 
 // GhostSet is "name = expr".
@@ -69,6 +76,7 @@ type TypeSpec struct {
 	Name  string // pkg.Type
 	Invs  []NamedExpr
 	Owns  map[string][]string // mutex field -> owned fields
+	GhostFields map[string]string // ghost field -> type name
 }
 
 type NamedExpr struct {
@@ -150,7 +158,7 @@ func (ss *SpecSet) parseFile(pkg, file, text string) error {
 	}
 	var items []item
 	kw := map[string]bool{"func": true, "loop": true, "type": true, "pure": true, "lemma": true, "requires": true, "ensures": true,
-		"modifies": true, "decreases": true, "invariant": true, "inv": true, "owns": true, "mode": true, "trusted": true, "iface": true, "functype": true, "sets": true, "ghost": true}
+		"modifies": true, "decreases": true, "invariant": true, "inv": true, "owns": true, "mode": true, "trusted": true, "iface": true, "functype": true, "sets": true, "ghost": true, "ghost_exit": true}
 	for i, ln := range lines {
 		t := strings.TrimSpace(ln)
 		if !strings.HasPrefix(t, "//@") {
@@ -214,7 +222,7 @@ func (ss *SpecSet) parseFile(pkg, file, text string) error {
 			curF, curT = nil, nil
 		case "type":
 			key := pkg + "." + strings.TrimSpace(rest)
-			curT = &TypeSpec{Name: key, Owns: map[string][]string{}}
+			curT = &TypeSpec{Name: key, Owns: map[string][]string{}, GhostFields: map[string]string{}}
 			ss.Types[key] = curT
 			curF, curL = nil, nil
 		case "pure":
@@ -320,7 +328,32 @@ func (ss *SpecSet) parseFile(pkg, file, text string) error {
 			if curF != nil {
 				curF.Mode = rest
 			}
+		case "ghost_exit":
+			if curF == nil {
+				return errf("ghost_exit outside func")
+			}
+			i := strings.Index(rest, "=")
+			if i < 0 {
+				return errf("ghost_exit needs x.f = expr")
+			}
+			tgt, err := parse(rest[:i])
+			if err != nil {
+				return err
+			}
+			e, err := parse(rest[i+1:])
+			if err != nil {
+				return err
+			}
+			curF.GhostExit = append(curF.GhostExit, GhostAssign{tgt, e})
 		case "sets", "ghost":
+			if first == "ghost" && curT != nil && curF == nil {
+				fs := strings.Fields(rest)
+				if len(fs) != 2 {
+					return errf("ghost field needs: ghost name type")
+				}
+				curT.GhostFields[fs[0]] = fs[1]
+				continue
+			}
 			if curF == nil {
 				return errf("%s outside func", first)
 			}
